@@ -164,7 +164,7 @@ pub fn canonical_diff_opts(a_img: &[u8], a: &Image, b_img: &[u8], b: &Image, opt
 
 pub fn run(rep: &mut Report, thorough: bool) {
     crate::util::install_quiet_panic_hook();
-    rep.rule = "histories of 2..5 dump requests on ONE writer under generated option sets, against the same quiescent target, with the blamed thread / principal address / crash context / target changed between requests through the public fields (only the changed fields are re-assigned), and with application memory configured on the writer that the target maps only after the first two (failing) requests; after each request a fresh identically configured writer dumps the same target and the two images are compared in canonical form (modulo timestamp, RVAs and the running main thread); each reused image also goes through the strict decoder. distinct = hash(option set, history shape); non-trivial = >= 2 Ok dumps compared".into();
+    rep.rule = "histories of 2..5 dump requests on ONE writer under generated option sets, against the same quiescent target, with the blamed thread / principal address / crash context / target changed between requests through the public fields (only the changed fields are re-assigned), and with application memory configured on the writer that the target maps only after the first two (failing) requests, and with a crash context whose instruction pointer lies in a file mapping that is unreadable (file truncated) during the first two requests; after each request a fresh identically configured writer dumps the same target and the two images are compared in canonical form (modulo timestamp, RVAs and the running main thread); each reused image also goes through the strict decoder. distinct = hash(option set, history shape); non-trivial = >= 2 Ok dumps compared".into();
     let mut rng = Rng::new(rep.seed.wrapping_mul(191_919));
     let ntargets = if thorough { 240 } else { 6 };
     let per_target = if thorough { 16 } else { 8 };
@@ -192,16 +192,33 @@ pub fn run(rep: &mut Report, thorough: bool) {
         let _ = &mut sc;
         let volatile = vec![sc.target.pid as u32];
         let mut late_mapped = false;
+        // an executable file mapping whose backing file the harness can truncate and extend again:
+        // while the file is empty the page is mapped but unreadable (as after a binary was replaced)
+        let exec_file: Option<(String, u64)> = sc.b.spec.regions.iter().find_map(|r| match &r.kind {
+            crate::spec::RegionKind::File { path, .. } if r.prot == 5 && path.ends_with("exec-with-noaccess-tail.bin") => Some((path.clone(), r.addr)),
+            _ => None,
+        });
         for h in 0..per_target {
             let bits = rng.below(128) as u32;
             let knobs = OptKnobs::from_bits(bits, &mut rng);
             let o1 = scen::random_opts(&mut rng, &sc, &knobs);
-            let shape = if late_mapped { h % 6 } else if h == 2 { 6 } else { h % 6 }; // 6: configured application memory becomes readable only after the first (failing) requests; 5: every request is preceded by a failed one; 0: same options; 1: blamed thread changes; 2: principal address unset later; 3: crash context removed later; 4: target swapped
+            let shape = if h == 4 && exec_file.is_some() { 7 } else if late_mapped { h % 6 } else if h == 2 { 6 } else { h % 6 }; // 6: configured application memory becomes readable only after the first (failing) requests; 5: every request is preceded by a failed one; 0: same options; 1: blamed thread changes; 2: principal address unset later; 3: crash context removed later; 4: target swapped
             let mut o1 = o1;
             if shape == 6 {
                 o1.app_memory.push((late.0 + 8 * rng.below(64), 1 + rng.below(4096)));
             }
-            let len = if shape == 6 { 4 } else { rng.range(2, 5) as usize };
+            if shape == 7 {
+                // crash context whose instruction pointer lies in that mapping, on a listed thread
+                let (_, addr) = exec_file.clone().unwrap();
+                let si = rng.usize_below(sc.b.sentinels.iter().filter(|s| s.stack_len > 0).count().max(1));
+                if let Some(sen) = sc.b.sentinels.iter().filter(|s| s.stack_len > 0).nth(si) {
+                    let tid = sc.target.manifest.tids[sen.index];
+                    let mut crng = rng.fork(77);
+                    o1.blamed = tid;
+                    o1.crash = Some(dump::CrashSpec { gregs: scen::crash_gregs(&mut crng, sen.regs.gpr[crate::spec::RSP], addr + 200), fpstate: crng.bytes(512), signo: 7, code: 2, addr: addr + 200, tid, noise_seed: 0 });
+                }
+            }
+            let len = if shape == 6 || shape == 7 { 4 } else { rng.range(2, 5) as usize };
             let _g = dump::DUMP_LOCK.lock().unwrap_or_else(|e| e.into_inner());
             let (mut w, _guard) = dump::configure(&o1);
             let mut compared = 0;
@@ -245,6 +262,18 @@ pub fn run(rep: &mut Report, thorough: bool) {
                             w.app_memory = ok.app_memory.iter().map(|(p, l)| minidump_writer::app_memory::AppMemory { ptr: *p as usize, length: *l as usize }).collect();
                         }
                         _ => {}
+                    }
+                }
+                if shape == 7 {
+                    if let Some((path, _)) = &exec_file {
+                        if k == 0 {
+                            let ok = std::fs::OpenOptions::new().write(true).open(path).and_then(|f| f.set_len(0)).is_ok();
+                            history.push(format!("the file behind the crash instruction pointer is truncated to 0 bytes (ok={ok})"));
+                        } else if k == 2 {
+                            let ok = std::fs::OpenOptions::new().write(true).open(path).and_then(|f| f.set_len(2 * crate::tspec::PAGE)).is_ok();
+                            history.push(format!("the file is extended again (ok={ok})"));
+                            rep.count("crash_ip_mappings_made_readable_again", ok as u64);
+                        }
                     }
                 }
                 if shape == 6 && k == 2 && !late_mapped {
@@ -324,6 +353,7 @@ pub fn run(rep: &mut Report, thorough: bool) {
     }
     rep.require("image_pairs_compared", 20);
     rep.require("late_regions_mapped", 1);
+    rep.require("crash_ip_mappings_made_readable_again", 1);
 }
 
 
